@@ -10,7 +10,8 @@ Import ListNotations.
 Open Scope N_scope.
 
 (* After every history the retained map is, topic by topic, the fold over the history's
-   publishes that returned (wills are publishes: broker/client.go calls the same Publish):
+   publishes that were accepted (result nil; a Publish refused with ErrQueueFull or still waiting has not touched
+   the retained store; wills are publishes: broker/client.go calls the same Publish):
    retain and payload <> [] sets, retain and payload = [] deletes, anything else leaves it;
    the map has one entry per topic, each stored under its own topic with the flag kept. *)
 Theorem C11_retained_is_spec : forall cap ops t,
@@ -20,7 +21,9 @@ Theorem C11_retained_is_spec : forall cap ops t,
 Proof. exact retained_is_spec. Qed.
 Print Assumptions C11_retained_is_spec.
 
-(* the same, step by step (the clause the correspondence check evaluates on the implementation) *)
+(* the same, step by step (the clause the correspondence check evaluates on the implementation): only a Publish that
+   returns nil changes the retained map, and it changes it as MQTT 3.3.1.3 says; every other step — a refused
+   (ErrQueueFull) or waiting Publish included — leaves it as it is *)
 Theorem C11_retained_step : forall cap ops, holds_along retained_ok cap ops.
 Proof. exact retained_along. Qed.
 Print Assumptions C11_retained_step.
